@@ -211,7 +211,16 @@ def normal_pair(ctx, rule="R-NORMAL-PAIR"):
                     good = [x for _, x in aa if x.value in (ANN_F, PREF_F, ("p", "device_address_preferred"))
                             or (x.value[0] not in ("c",) and x.value != NULL)]
                     if good and aa[-1][1].value not in (NULL, ("c", None)):
-                        ctx.holds(rule, inst)
+                        # readers on the other thread test the state first and then use the address: outside the constructor the
+                        # address has to be in place before the state says NORMAL
+                        late = [j for j, x in aa if j > i and x.value not in (NULL, ("c", None))]
+                        early = [j for j, x in aa if j < i and x.value not in (NULL, ("c", None))]
+                        if name != "__init__" and late and not early:
+                            ctx.violated(rule, f, inst + " (address first)", "the state becomes NORMAL before the held address is stored: a request or an "
+                                         "application send handled by another thread in between sees an operational CA that still holds the null address "
+                                         "(answers from 254 / drops a request to the address just won)", e.node)
+                        else:
+                            ctx.holds(rule, inst)
                     else:
                         ctx.violated(rule, f, inst, "state becomes NORMAL on a path that does not set the held address to the announced one", e.node)
             if name == "_process_addressclaim":
@@ -641,7 +650,15 @@ def claim_table(ctx, rule="R-CLAIM-TABLE"):
             else:
                 ctx.violated(rule, f, "addressed claims are contested", "a claim for the address this CA holds or announces is ignored; counterexample %s" % cex, node, witness=cex)
             continue
-        if not is_addr or not cont:
+        if not is_addr and (stores or sends):
+            # the path has an effect although its condition does not imply "the claim is for the address I hold / announce"
+            _, cex = G.implies(F, addressed)
+            ctx.violated(rule, f, "reaction only when addressed", "the CA reacts (state change / frame) on a path whose condition admits a claim for an address it "
+                         "neither holds in NORMAL nor announces in WAIT_VETO; counterexample %s" % cex, node, witness=cex)
+            continue
+        if not is_addr and not stores and not sends:
+            continue    # an effect-free path (e.g. the equal-NAME return) needs no addressing
+        if not cont:
             ctx.unknown(rule, "path with undetermined addressing: %s" % pretty(F)[:100])
             continue
         c = cont[0]
